@@ -849,6 +849,58 @@ def r199(ctx):
         ctx.bad(rid, cst, "read_trr_frame does not count frames from 0 with the test before the increment (start value, comparison or increment changed): frame k is not the k-th frame of the file", construct="read_trr_frame frame counter")
 
 
+def r1911(ctx):
+    """Editing a CP2K input section is local: update_node rebuilds the section line by line -
+    every existing line is kept or replaced by exactly one line (no path of the loop drops or
+    duplicates a line, the kept branch appends the line itself) - and the rebuilt list is stored
+    as it is (a plain copy, no set / dict.fromkeys / sorted / filter / slice in between, which
+    would merge identical lines such as the per-atom entries of &VELOCITY or &COORD)."""
+    rid = "R-19.11"
+    tree = ctx.tree
+    f = tree.func(CP2K, "update_node")
+    fl = flow_of(f)
+    cfg = fl.cfg
+    loops = [L for L in walk_local(f) if isinstance(L, ast.For) and isinstance(L.iter, ast.Attribute) and L.iter.attr == "data" and isinstance(L.target, ast.Name)]
+    if len(loops) != 1:
+        raise AnalysisError(f"R-19.11: {len(loops)} loops over the section's lines in update_node (expected 1)")
+    L = loops[0]
+    node_name = ast.unparse(L.iter.value)
+    line = L.target.id
+    apps = [c for c in ast.walk(L) if isinstance(c, ast.Call) and isinstance(c.func, ast.Attribute) and c.func.attr == "append" and isinstance(c.func.value, ast.Name) and c.args]
+    lists = {c.func.value.id for c in apps}
+    if len(lists) != 1:
+        raise AnalysisError("R-19.11: the loop over the section's lines does not rebuild exactly one list")
+    nd = lists.pop()
+    head = cfg.node_of(L)
+    app_nodes = [cfg.node_of(c) for c in apps]
+    body_first = [s2 for s2, lab in cfg.succ[head.id] if lab == "T"]
+    skips = any(head.id in cfg.reachable(cfg.nodes[b], avoid=app_nodes, labels_excluded=("exc",)) for b in body_first)
+    twice = any(any(o.id in (cfg.reachable(a, avoid=[head], labels_excluded=("exc",)) - {a.id}) for o in app_nodes) for a in app_nodes)
+    kept = [c for c in apps if isinstance(c.args[0], ast.Name) and c.args[0].id == line]
+    if skips or twice or not kept:
+        ctx.bad(rid, L, "update_node does not carry every existing line of the section over as exactly one line (a path of the loop drops a line, adds two, or no branch keeps the line itself): entries that were not requested are lost or duplicated", construct="update_node: one line out per line in")
+    else:
+        ctx.ok(rid, L, "every existing line of the section yields exactly one line; lines that are not addressed are kept as they are")
+    stores = [s_ for s_ in walk_local(f) if isinstance(s_, ast.Assign) and any(isinstance(t, ast.Attribute) and t.attr == "data" and ast.unparse(t.value) == node_name for t in s_.targets)]
+    if not stores:
+        raise AnalysisError("R-19.11: update_node never stores the section's data")
+    params = [a.arg for a in f.args.args]
+    for s_ in stores:
+        v, vat = s_.value, cfg.node_of(s_)
+        if not (isinstance(v, ast.Name) and (v.id == nd or v.id in params)):
+            v, vat = deref(fl, s_.value, cfg.node_of(s_))
+        inner = v.args[0] if isinstance(v, ast.Call) and last_name(v) == "list" and len(v.args) == 1 and not v.keywords else v
+        if not (isinstance(inner, ast.Name) and (inner.id == nd or inner.id in params)):
+            inner, _ = deref(fl, inner, vat)
+        plain = isinstance(inner, ast.Name) and (inner.id == nd or inner.id in params)
+        if isinstance(inner, ast.Call) and last_name(inner) == "list" and len(inner.args) == 1 and isinstance(inner.args[0], ast.Name) and (inner.args[0].id == nd or inner.args[0].id in params):
+            plain = True
+        if plain:
+            ctx.ok(rid, s_, "the section's lines are stored as rebuilt (plain copy)")
+        else:
+            ctx.bad(rid, s_, f"update_node stores `{short(s_.value, 50)}`: the rebuilt lines pass through a transformation before they are stored; identical lines (per-atom entries of &VELOCITY / &COORD, repeated keywords) are merged or reordered, so entries that were not requested change and fewer lines than atoms are written", construct=f"update_node: node.data = {short(s_.value, 50)}")
+
+
 def run(ctx):
     ctx.rule("R-19.6", "the flattened box matrix has the element order of the g96 BOX record (folded from the source, comprehensions included)", floor=1)
     ctx.rule("R-19.10", "input-template editing: writer and reader split `key <delim> value` with the same regular expression, whose key group is lazy (regex syntax trees compared)", floor=3)
@@ -864,6 +916,8 @@ def run(ctx):
         ctx.attempt(r, ctx)
     ctx.attempt(r199, ctx)
     ctx.attempt(r1910, ctx)
+    ctx.rule("R-19.11", "editing a CP2K section is local: one line out per line in, unaddressed lines kept, the rebuilt list stored as a plain copy", floor=2)
+    ctx.attempt(r1911, ctx)
     from .shared import role_agreement, handed_out_buffers
     from .c13 import readers
     for rf in readers(ctx.tree):
@@ -875,6 +929,9 @@ def run(ctx):
 
 
 VARIANTS = [
+    B("c19-cp2k-section-lines-deduplicated", CP2K, "        node.data = list(new_data)\n    else:\n        node.data = list(data)", "    else:\n        new_data = list(data)\n    node.data = list(dict.fromkeys(new_data))", "R-19.11", control=True, why="seeded C19_g"),
+    B("c19-cp2k-unaddressed-line-dropped", CP2K, "            else:\n                new_data.append(line)\n        for key in data:", "        for key in data:", "R-19.11"),
+    K("c19-keep-cp2k-section-store-direct", CP2K, "        node.data = list(new_data)\n    else:", "        node.data = new_data\n    else:"),
     B("c19-trr-frame-by-computed-offset", GROMACS, '    idx = 0\n    with open(filename, "rb") as infile:\n        while True:\n            try:\n                header, _ = read_trr_header(infile)\n                if idx == index:\n                    data = read_trr_data(infile, header)\n                    return header, data\n                skip_trr_data(infile, header)\n                idx += 1\n                if idx > index:\n                    logger.error("Frame %i not found in %s", index, filename)\n                    return None, None\n            except EOFError:\n                return None, None\n', '    with open(filename, "rb") as infile:\n        try:\n            header, header_size = read_trr_header(infile)\n            if index > 0:\n                data_size = sum(header[key] for key in TRR_DATA_ITEMS)\n                infile.seek(index * (header_size + data_size))\n                header, _ = read_trr_header(infile)\n            data = read_trr_data(infile, header)\n            return header, data\n        except EOFError:\n            return None, None\n', "R-19.9", why="seeded C19_f"),
     B("c19-template-regex-greedy", ENGBASE, '        reg = re.compile(rf"(.*?){delim}")\n        written = set()', '        reg = re.compile(rf"(.*){re.escape(delim)}")\n        written = set()', "R-19.10", control=True, why="seeded C19_d"),
     K("c19-keep-template-regex-escaped", ENGBASE, 'reg = re.compile(rf"(.*?){delim}")', 'reg = re.compile(rf"(.*?){re.escape(delim)}")', count=2),
